@@ -1,2 +1,111 @@
-"""Per-property explanation strings for the evidence files."""
-PROPDOC = {}
+"""Per-property documentation used in MANIFEST.json and the evidence files.
+
+Everything here is prose; the set of rules per property comes from the registry."""
+
+_COMMON_NOTE = ('Trusted base: the Python ast module; the type comments of the analysed source (used only to resolve '
+                'calls); the frozen tables under /verif/tables (each entry one named construct with a reason). '
+                'Decides necessary structural conditions of the property on every path of the current source; '
+                'does not run the library and says nothing about the clauses listed as not decided in DESIGN.md section 5.')
+_LEVEL = ('Static necessary-condition checking: each rule is exact on its structural clause (no heuristics armed), '
+          'instances are enumerated from the current source on every run, floors fail closed if anchors vanish. '
+          'Chosen because the property quantifies over histories/inputs that no static argument bounds; the clauses '
+          'claimed are those whose truth is visible in the shape of the code.')
+
+
+def _d(expl, technique, ref):
+    return {'explanation': expl, 'technique': technique, 'level_text': _LEVEL, 'level_note': _COMMON_NOTE,
+            'design_ref': ref,
+            'assumptions': ['type comments in /repo describe the receivers they annotate (used for call resolution only)',
+                            'no monkey-patching / dynamic attribute injection beyond the three getattr/setattr idioms handled',
+                            'the spec table tables/spec_layout.json was transcribed correctly from the standards']}
+
+
+PROPDOC = {
+ 'C01': _d('Mastering fidelity, structural part: volume size is written only by the accounting primitives (SA-OWN.space_size); '
+           'insertion/removal keep the children and rr_children indexes parallel (SA-PAIR.rr_children); the continuation-block '
+           'allocator contract between caller and callee is not contradicted (SA-SENTINEL); accounting deltas are not dropped (SA-ACCT); '
+           'the descriptor inventories created/parsed/assigned/written coincide (SA-SIB.inventory).',
+           'who-may-write tables + pairing rules + reaching-definitions contradiction rule over the ast', 'DESIGN.md 5/C01'),
+ 'C02': _d('Editing preserves the rest, structural part: nobody but modify_file_in_place writes to the opened image (SA-OWN.image); '
+           'removal keeps both directory indexes, the link lists and the path caches in step (SA-PAIR.*); every Rock Ridge kind that parse '
+           'keeps is re-emitted (SA-SIB.rr_kinds); all enumerations of boot-catalog entries cover all three collections (SA-SIB.eltorito_entries); '
+           'fields emitted from an attribute are parsed back into it (SA-SYM).',
+           'effect extraction + who-may-write + pairing + sibling-enumeration rules', 'DESIGN.md 5/C02'),
+ 'C03': _d('ECMA-119 validity, structural part: field layout of PVD/SVD, directory record, path table record, boot record and terminator '
+           'equals the standard (SA-SPEC.iso9660 against an independent table); both-byte-order copies come from one expression, LE first '
+           '(SA-ENDIAN); format hygiene (SA-FMT); children is mutated only by the sorted-insert/remove primitives and every mutation is '
+           'followed by the offset recomputation (SA-OWN.children, SA-PAIR.offset_cache); size computation and writer pack records by the same '
+           'overflow rule (SA-SIB.packing).',
+           'struct-format codec model compared with a spec layout oracle; sibling agreement via canonical linear inequalities', 'DESIGN.md 5/C03'),
+ 'C04': _d('Sector allocation, structural part: accounting discipline (SA-ACCT), derived locations have no writer outside the recomputation '
+           'pass (SA-OWN.derived), Inode.set_extent_location is called only by _set_inode which hands the same extent to all linked records '
+           '(SA-OWN.inode-set-extent), mastering writes go through the bound/overlap-checked writer (SA-OWN.master), unlink releases the blob '
+           '(SA-PAIR.unlink_release), UDF entry counts move with the links (SA-PAIR.udf_link_count), allocator contract (SA-SENTINEL).',
+           'call-graph reachability + who-may-write/who-may-call tables + must-pass-through on the CFG', 'DESIGN.md 5/C04'),
+ 'C05': _d('Re-mastering fixpoint, structural part: for all parse/record pairs, a field emitted from attribute A is parsed back into A '
+           '(SA-SYM); Rock Ridge kinds parsed = kinds recorded (SA-SIB.rr_kinds); layouts (SA-SPEC); format hygiene (SA-FMT); written lengths '
+           'equal emitted lengths (SA-LEN); UDF tag discipline (SA-TAG).',
+           'per-field def-use flow between struct.unpack targets and struct.pack arguments', 'DESIGN.md 5/C05'),
+ 'C06': _d('Lazy metadata transparency, structural part: the recomputation pass has no memory (no accumulation, SA-RESHUFFLE.pure); readers of '
+           'derived state check the stale flag (SA-RESHUFFLE.gate); public edits that write what the pass reads mark the metadata stale on every '
+           'normal exit (SA-RESHUFFLE.flag); derived state and the flag have no other writers (SA-OWN.derived, SA-OWN.needs_reshuffle).',
+           'effect summaries over the call graph + must-pass-through on public method CFGs', 'DESIGN.md 5/C06'),
+ 'C07': _d('Hard-link semantics, structural part: link and inode registration move together (SA-PAIR.link_inode); removing a reference tests '
+           'for the last one and releases the blob (SA-PAIR.unlink_release); every dispatch over the records linked to an inode handles all '
+           'three kinds or sits behind the El Torito gate (SA-SIB.linked_dispatch, SA-GATE.eltorito); enumerations of boot entries are complete '
+           '(SA-SIB.eltorito_entries); one data location per inode (SA-OWN.inode-set-extent).',
+           'pairing rules over effect extraction; isinstance-chain exhaustiveness; dominance of gate calls', 'DESIGN.md 5/C07'),
+ 'C08': _d('Rock Ridge fidelity, structural part: SUSP record layouts against the standard (SA-SPEC.susp); every record stored in the directory '
+           'record or continuation area is accounted with the length() of its own class in the same block (SA-PAIR.rr_placement); su_len packed '
+           '= bytes emitted = Class.length (SA-LEN.susp); continuation allocator contract (SA-SENTINEL); kinds parsed = recorded (SA-SIB.rr_kinds).',
+           'block-level pairing with reaching definitions; length algebra over bytes expressions', 'DESIGN.md 5/C08'),
+ 'C09': _d('Joliet fidelity, structural part (thin): every insertion into the Joliet tree passes the Joliet name gate, which contains the '
+           'length limit followed by InvalidInput (SA-GATE.joliet); one codec at all encode/decode sites (SA-SIB.joliet_codec); the Joliet VD has '
+           'its own path-table locations and directory pass in the inventories (SA-SIB.inventory).',
+           'call-graph must-pass-through (gate) + literal agreement after codecs.lookup normalisation', 'DESIGN.md 5/C09'),
+ 'C10': _d('UDF bridge fidelity, structural part: descriptor layouts against ECMA-167 (SA-SPEC.udf); tag identifier tables new()/parse '
+           'dispatch/standard agree, record() returns tag.record(body)+body, set_extent_location updates the tag location (SA-TAG); FID length '
+           '(SA-LEN.fid); parse/record symmetry (SA-SYM); UDF link count pairing; fi_descs ownership.',
+           'struct-format codec model + spec oracle + tag discipline rules', 'DESIGN.md 5/C10'),
+ 'C11': _d('El Torito, structural part: boot record / validation / initial / section layouts (SA-SPEC.eltorito); catalogue capacity constant '
+           'and checksum discipline (SA-LEN.eltorito, SA-SIB.validation_csum); boot-info-table constants agree between all five sites '
+           '(SA-SIB.boot_info); entry enumerations complete (SA-SIB.eltorito_entries); rm_eltorito releases (SA-PAIR.unlink_release).',
+           'spec oracle + constant agreement across sibling sites', 'DESIGN.md 5/C11'),
+ 'C12': _d('Hybrid boot data, structural part: no stale loop variable feeds the partition sizes (SA-STALEVAR); primary and backup GPT are '
+           'updated identically (SA-SIB.gpt_mirror); MBR/GPT/APM layouts against the standards (SA-SPEC.hybrid); GPT CRC span and patch offset '
+           '(SA-LEN.gpt); parse/record symmetry by byte offset (SA-SYM).',
+           'reaching definitions (stale loop targets); mirror-write comparison; spec oracle', 'DESIGN.md 5/C12'),
+ 'C13': _d('Namespace rules, structural part: each insertion primitive refuses duplicates before inserting (SA-DUPGUARD); every user-named '
+           'insertion passes the namespace acceptance predicate (SA-GATE); accepted names fit the on-disc field (SA-LENBOUND); removal really '
+           'removes (SA-PAIR.rr_children, SA-PAIR.removal_cache); containers have no other writers (SA-OWN).',
+           'dominance of guards over insertions; call-graph must-pass-through; partial evaluation of the predicates', 'DESIGN.md 5/C13'),
+ 'C14': _d('Failure atomicity restricted to explicit refusals: for every public mutator and every PyCdlibInvalidInput raise site reachable '
+           'from it, no persistent write precedes the refusal on any CFG path (SA-VBM).',
+           'interprocedural may-dataflow of persistent writes vs. raise sites with constant-fact specialisation', 'DESIGN.md 3/SA-VBM'),
+ 'C15': _d('Hostile images: every explicit raise reachable from open constructs a documented class (SA-EXC.explicit); inventory of implicit '
+           'exception sources reachable from open vs. the boundary conversion (SA-EXC.implicit); every parse loop matches a progress idiom '
+           '(SA-TERM).',
+           'call-graph reachability + loop classification with per-loop progress proofs', 'DESIGN.md 3/SA-TERM, SA-EXC'),
+ 'C16': _d('Reading files, structural part: the logical offset moves with the bytes consumed on every path (SA-PAIR.stream); the position is '
+           're-established on the shared handle before every read (SA-SEEK.position); no read size beyond the end (SA-SEEK.bound); seek/tell '
+           'consistency (SA-SEEK.seekmethod); the data context manager positions the handle and returns the inode length (SA-SEEK.opendata); '
+           'copy helpers never ask for more than what is left (SA-SEEK.copy).',
+           'must/may dataflow on the CFG of each stream method with linear-expression comparison', 'DESIGN.md 5/C16'),
+ 'C17': _d('In-place modification, structural part: only modify_file_in_place writes the opened image (SA-OWN.image); validation precedes the '
+           'first write (SA-VBW); every write is preceded by a seek computed from descriptor/child extents or cached offsets (SA-VBW.seek); the '
+           'dispatch over linked records is exhaustive (SA-SIB.linked_dispatch); offset caches are recomputed by every mutation of children '
+           '(SA-PAIR.offset_cache).',
+           'who-may-write + validate-before-write dataflow + dispatch exhaustiveness', 'DESIGN.md 5/C17'),
+ 'C18': _d('Derived names are legal: abstract interpretation of the mangling helpers over a string domain (length interval x character '
+           'classes x dot/semicolon counts) for all inputs and interchange levels, compared with the language extracted from the acceptance '
+           'predicates themselves (SA-STR).',
+           'abstract interpretation over a finite string domain (sound for the string operations used)', 'DESIGN.md 3/SA-STR'),
+ 'C19': _d('Timestamps, structural part: broken-down fields and GMT offset come from the same localtime() of the same instant (SA-DATE); the '
+           'offset is stored in the unit the standard prescribes for that field (SA-UNITS); date layouts and parse/record identity at field '
+           'level (SA-SPEC.dates, SA-SYM).',
+           'same-source def-use rule + dimension algebra + spec oracle', 'DESIGN.md 5/C19'),
+ 'C20': _d('Tools round trip, structural part: attribute and call-signature existence in the tool scripts (SA-ATTR); the three branches that '
+           'build ISO paths treat a refused name alike and option-pair tests are equivalent to the pair disjunction (SA-SIB.tool); duplicate '
+           'detection is dominated by a byte-wise comparison (SA-DEDUP); collision numbering returns legal distinct names (SA-STR.tool).',
+           'slot-based attribute checking with narrowing; truth-table comparison of option expressions', 'DESIGN.md 5/C20'),
+}
